@@ -110,7 +110,9 @@ def run_tlc(
         for name, text in (extra_files or {}).items():
             Path(work, name).write_text(text)
         cfg = cfg or module + ".cfg"
-        java = ["java", "-XX:+UseParallelGC", "-Xmx12g", "-Xss512m"]
+        # (TLC drops small tlc-<n> directories into java.io.tmpdir: keep them inside the scratch directory, removed below)
+        os.makedirs(os.path.join(work, "jtmp"), exist_ok=True)
+        java = ["java", "-XX:+UseParallelGC", "-Xmx12g", "-Xss512m", f"-Djava.io.tmpdir={os.path.join(work, 'jtmp')}"]
         if dfs:
             java.append("-Dtlc2.tool.queue.IStateQueue=StateDeque")
         cmd = java + ["-cp", f"{JAR}:{DEPS}", "tlc2.TLC", "-metadir", os.path.join(work, "meta"),
